@@ -272,6 +272,96 @@ def InlineRef.rs_set_len {ρ} (_ : InlineRef) (n : Nat) : M ρ Unit := fun s =>
   | .inl raw => if n ≤ MAX_INLINE then .next () { s with self := .inl (inlSetLen raw n) } else .ub .oob
   | _ => .ub .oob
 
+/-! ## Raw access to the storage `self` owns (`as_slice_mut`, `as_str_mut`, `ptr::copy`, `chars()`)
+
+The checks are in the order of the Rust code (the slice index panics before anything is written); the hand
+model raises its alarms in a different order (`Heap.write` checks liveness, uniqueness, then bounds), so the
+ties of the functions that use these primitives are stated for executions in which the hand model raises no
+alarm — which is every execution from a well-formed world (`step_post`). -/
+
+structure SliceMut where
+  off : Nat
+  len : Nat
+structure MutPtr where
+  off : Nat
+structure ConstPtr where
+  b : Bytes
+/-- a `char`: its UTF-8 bytes and `len_utf8()` (the width its lead byte announces) -/
+structure Chr where
+  b : Bytes
+  w : Nat
+  deriving DecidableEq, Repr
+structure Chars where
+  b : Bytes
+
+/-- the bytes of the storage `self` may write to: the block's `capacity` bytes, or the 16 raw bytes -/
+def storageOf (hp : Heap) : Handle → Except UB Bytes
+  | .inl raw => .ok raw
+  | .heap a _ => match hp.get? a with | some b => .ok b.data | none => .error .useAfterFree
+  | .stat _ _ => .error .writeStatic
+
+/-- `self.as_slice_mut()`: the capacity-long slice -/
+def Repr.as_slice_mut {ρ} : M ρ SliceMut := fun s =>
+  match s.self with
+  | .inl _ => .next ⟨0, MAX_INLINE⟩ s
+  | .heap a _ => (match s.hp.get? a with | some b => .next ⟨0, b.cap⟩ s | none => .ub .useAfterFree)
+  | .stat _ _ => .ub .writeStatic
+
+/-- `self.as_str_mut()`: the first `len()` bytes of `as_slice_mut()` -/
+def Repr.as_str_mut {ρ} : M ρ SliceMut := fun s =>
+  match s.self with
+  | .inl _ => .next ⟨0, s.self.len⟩ s
+  | .heap a l => (match s.hp.get? a with | some _ => .next ⟨0, l⟩ s | none => .ub .useAfterFree)
+  | .stat _ _ => .ub .writeStatic
+
+/-- `&mut slice[a..b]` (panics when out of range) -/
+def SliceMut.rs_index_range {ρ} (sl : SliceMut) (a b : Nat) : M ρ SliceMut := fun s =>
+  if a ≤ b ∧ b ≤ sl.len then .next ⟨sl.off + a, b - a⟩ s else .ub .oob
+/-- `&mut str[a..]` -/
+def SliceMut.rs_index_from {ρ} (sl : SliceMut) (a : Nat) : M ρ SliceMut := fun s =>
+  if a ≤ sl.len then .next ⟨sl.off + a, sl.len - a⟩ s else .ub .oob
+def SliceMut.rs_len {ρ} (sl : SliceMut) : M ρ Nat := pure sl.len
+def SliceMut.rs_as_mut_ptr {ρ} (sl : SliceMut) : M ρ MutPtr := pure ⟨sl.off⟩
+def MutPtr.rs_add {ρ} (p : MutPtr) (n : Nat) : M ρ MutPtr := pure ⟨p.off + n⟩
+def Str.rs_as_bytes {ρ} (t : Str) : M ρ Str := pure t
+def Str.rs_as_ptr {ρ} (t : Str) : M ρ ConstPtr := pure ⟨t.b⟩
+
+/-- write `bytes` at `off` through the storage `self` owns -/
+def writeSelf {ρ} (off : Nat) (bytes : Bytes) : M ρ Unit := fun s =>
+  match writeBytes s.hp s.self off bytes with
+  | .ok (hp', r') => .next () { s with hp := hp', self := r' }
+  | .error u => .ub u
+
+/-- `dst.copy_from_slice(src)` (panics when the lengths differ) -/
+def SliceMut.rs_copy_from_slice {ρ} (sl : SliceMut) (src : Str) : M ρ Unit := fun s =>
+  if src.b.length = sl.len then writeSelf sl.off src.b s else .ub .oob
+
+/-- `ptr::copy(src, dst, n)` inside the storage of `self` (memmove) -/
+def ptr.copy {ρ} (src dst : MutPtr) (n : Nat) : M ρ Unit := fun s =>
+  match storageOf s.hp s.self with
+  | .error u => .ub u
+  | .ok stor => if src.off + n ≤ stor.length then writeSelf dst.off ((stor.drop src.off).take n) s else .ub .oob
+
+/-- `ptr::copy_nonoverlapping(src, dst, n)` from a `&str` into the storage of `self` -/
+def ptr.copy_nonoverlapping {ρ} (src : ConstPtr) (dst : MutPtr) (n : Nat) : M ρ Unit := fun s =>
+  if n ≤ src.b.length then writeSelf dst.off (src.b.take n) s else .ub .oob
+
+/-- `str.chars()` on a mutable sub-slice of `self`, and on a `&str` -/
+def SliceMut.rs_chars {ρ} (sl : SliceMut) : M ρ Chars := fun s =>
+  match storageOf s.hp s.self with
+  | .error u => .ub u
+  | .ok stor => if sl.off + sl.len ≤ stor.length then .next ⟨(stor.drop sl.off).take sl.len⟩ s else .ub .oob
+def Str.rs_chars {ρ} (t : Str) : M ρ Chars := pure ⟨t.b⟩
+/-- `chars().next()`: the first character, by the width its lead byte announces -/
+def Chars.rs_next {ρ} (c : Chars) : M ρ (Option Chr) :=
+  pure (match c.b with | [] => none | b :: _ => some ⟨c.b.take (charWidth b), charWidth b⟩)
+/-- `chars().next_back()`: the last character, found by skipping continuation bytes backwards -/
+def Chars.rs_next_back {ρ} (c : Chars) : M ρ (Option Chr) :=
+  pure (if c.b.isEmpty then none else some ⟨c.b.drop (c.b.length - (trailing c.b + 1)), trailing c.b + 1⟩)
+def _root_.Option.rs_unwrap_unchecked {ρ α} (o : Option α) : M ρ α := fun s =>
+  match o with | some a => .next a s | none => .ub .oob
+def Chr.rs_len_utf8 {ρ} (c : Chr) : M ρ Nat := pure c.w
+
 /-! ## Constants the source names -/
 
 def MAX_INLINE_SIZE : Nat := MAX_INLINE
